@@ -18,6 +18,7 @@ import (
 	"path/filepath"
 	"strconv"
 	"strings"
+	"sync"
 	"testing"
 
 	"pgregory.net/rapid"
@@ -34,6 +35,8 @@ type ReachScenario struct {
 	Stale      bool     `json:"stale"`      // fresh: an ignored fail file is present
 	Procs      bool     `json:"procs"`      // fresh: separate processes
 	NoAutoSeed bool     `json:"noAutoSeed"` // fresh: child processes run with GODEBUG=randautoseed=0
+	Reuse      bool     `json:"reuse"`      // fresh: ONE function made by MakeCheck is run K times
+	Parallel   int      `json:"parallel"`   // fresh: this many Check calls start at the same moment on their own goroutines, K rounds
 }
 
 func wordsBytes(ws ...uint64) []byte {
@@ -421,6 +424,51 @@ func freshSeeds(t *testing.T, rec *Recorder, sc *ReachScenario) {
 				fs := strings.Fields(string(b))
 				if len(fs) > 0 {
 					seeds = append(seeds, fs[0])
+				}
+			}
+		}
+	} else if sc.Reuse {
+		// a test function made once by MakeCheck and run several times (one check shared by the entries of a table, -count=2)
+		var firsts []string
+		f := rapid.MakeCheck(func(rt *rapid.T) {
+			var fp uint64
+			for i := 0; i < 64; i++ {
+				fp <<= 1
+				if rapid.Bool().Draw(rt, "b") {
+					fp |= 1
+				}
+			}
+			firsts = append(firsts, strconv.FormatUint(fp, 10))
+		})
+		for k := 0; k < sc.K; k++ {
+			firsts = nil
+			t.Run(fmt.Sprintf("reuse%d", k), f)
+			if len(firsts) > 0 {
+				seeds = append(seeds, firsts[0])
+			}
+		}
+	} else if sc.Parallel > 0 {
+		// parallel tests: several Check calls that begin at the same moment
+		setFlags(map[string]string{"checks": "1", "nofailfile": "true"})
+		for k := 0; k < sc.K; k++ {
+			res := make([]string, sc.Parallel)
+			start := make(chan struct{})
+			var wg sync.WaitGroup
+			for g := 0; g < sc.Parallel; g++ {
+				wg.Add(1)
+				go func(g int) {
+					defer wg.Done()
+					<-start
+					if fs := oneFreshCheck(name); len(fs) > 0 {
+						res[g] = fs[0]
+					}
+				}(g)
+			}
+			close(start)
+			wg.Wait()
+			for _, r := range res {
+				if r != "" {
+					seeds = append(seeds, r)
 				}
 			}
 		}
